@@ -657,6 +657,113 @@ def narrow_count_case(ctx, index, rng: random.Random):
     rec.case(["narrow", dt, d, start, k, how], start + added > top, cls=f"narrow/{dt}/{d}d/{how}/{np.dtype(h.dtype)}")
 
 
+def special_facade_case(ctx, index, rng: random.Random):
+    """The construction rules through the facades of the transformed histograms (polar, azimuthal, radial, spherical, ...): a requested
+    dtype is honoured, an integer dtype with float weights is refused, float weights give a float histogram."""
+    import physt
+
+    rec = ctx.rec
+    rec.mon("C13.rules")
+    name = rng.choice(["polar", "azimuthal", "radial", "spherical", "spherical_surface", "cylindrical", "cylindrical_surface"])
+    n = rng.randint(3, 20)
+    dim = 2 if name in ("polar", "azimuthal") else 3
+    if name == "radial":
+        dim = rng.choice([2, 3])
+    pts = np.asarray([[rng.uniform(-3, 3) for _ in range(dim)] for _ in range(n)])
+    dt = rng.choice([None] + DTYPES_ALL)
+    wk = rng.choice([None, "int", "float", "float"])
+    kw = {}
+    if dt is not None:
+        kw["dtype"] = dt
+    if wk == "float":
+        kw["weights"] = np.asarray([rng.randint(1, 12) / 4 + 0.125 for _ in range(n)], dtype=float)
+    elif wk == "int":
+        kw["weights"] = np.asarray([rng.randint(0, 4) for _ in range(n)], dtype=int)
+    must_refuse = dt is not None and np.dtype(dt).kind in "iu" and wk == "float"
+    h = err = None
+    try:
+        with warnings.catch_warnings():
+            warnings.simplefilter("ignore")
+            # (the planar facades and radial take the coordinates column by column)
+            args = [pts[:, i] for i in range(dim)] if name in ("polar", "azimuthal", "radial") else [pts]
+            h = getattr(physt, name)(*args, **kw)
+    except Exception as ex:
+        err = ex
+    if must_refuse:
+        if err is None:
+            rec.fail(monitor="C13.rules", op=f"construct/{name}", symptom="integer histogram with float weights was not refused", diff=["not_refused"], detail={"facade": name, "dtype": dt, "got": str(h.dtype)})
+    elif err is not None:
+        rec.fail(monitor="C13.rules", op=f"construct/{name}", symptom=f"valid dtype / weights combination refused: {type(err).__name__}", diff=["raised"], detail={"facade": name, "dtype": dt, "weights": wk, "error": str(err)[:160]})
+    else:
+        got = np.dtype(h.dtype)
+        if dt is not None and got != np.dtype(dt):
+            rec.fail(monitor="C13.rules", op=f"construct/{name}", symptom="requested dtype not honoured", diff=["dtype"], detail={"facade": name, "requested": dt, "got": str(got), "weights": wk})
+        if dt is None and wk == "float" and got.kind != "f":
+            rec.fail(monitor="C13.rules", op=f"construct/{name}", symptom="float weights did not give a float histogram", diff=["dtype"], detail={"facade": name, "got": str(got)})
+        if dt is None and wk in (None, "int") and got.kind not in "iu":
+            rec.fail(monitor="C13.rules", op=f"construct/{name}", symptom="unweighted / integer-weighted counting did not stay in an integer type", diff=["dtype"], detail={"facade": name, "got": str(got)})
+        with attach.quiet():
+            for p_ in snap.dtype_problems(h):
+                rec.fail(monitor="C13.rules", op=f"construct/{name}", symptom="reported dtype differs from the element type of the arrays", diff=["dtype"], detail={"facade": name, "problem": p_})
+    rec.case(["special", name, dim, dt, wk, pts.tolist()], True, cls=f"special/{name}/{dt}/{wk}/{'refused' if err is not None else 'accepted'}")
+
+
+def stated_missed_case(ctx, index, rng: random.Random):
+    """The weight outside the bins stated directly - constructor arguments (underflow / overflow / inner_missed, missed of an ND
+    histogram) or the public setters - on a histogram with integer contents: a non-integral value is reported as it was given (the
+    type promotes, as for a float weight in fill) or the call is refused; it is never truncated."""
+    import physt
+    from physt.histogram1d import Histogram1D
+    from physt.histogram_nd import Histogram2D
+
+    rec = ctx.rec
+    rec.mon("C13.rules")
+    e = np.array(gen.regular_edges(rng, rng.randint(2, 5)))
+    nb = len(e) - 1
+    dt = rng.choice([None, None, "int64", "int32", "int16"])
+    value = rng.choice([0.5, 2.75, 1.25, 3.0, 7, 0.25, 1e-3, 12.5])
+    how = rng.choice(["ctor_1d", "ctor_1d", "setter", "setter", "ctor_nd", "from_dict"])
+    which = rng.choice(["underflow", "overflow", "inner_missed"])
+    freq = np.asarray([rng.randint(0, 9) for _ in range(nb)], dtype=dt or "int64")
+    kw = {} if dt is None else {"dtype": dt}
+    h = err = None
+    try:
+        with warnings.catch_warnings():
+            warnings.simplefilter("ignore")
+            if how == "ctor_1d":
+                h = Histogram1D(physt.h1(None, e).binning.copy(), frequencies=freq, **{which: value}, **kw)
+                got = getattr(h, which)
+            elif how == "setter":
+                h = Histogram1D(physt.h1(None, e).binning.copy(), frequencies=freq, **kw)
+                setattr(h, which, value)
+                got = getattr(h, which)
+            elif how == "from_dict":
+                src = Histogram1D(physt.h1(None, e).binning.copy(), frequencies=freq, **kw)
+                doc = src.to_dict()
+                stated = list(doc["missed"])
+                stated[["underflow", "overflow", "inner_missed"].index(which)] = value
+                doc["missed"] = stated
+                h = Histogram1D.from_dict(doc)
+                got = getattr(h, which)
+            else:
+                f2 = np.asarray([[rng.randint(0, 9) for _ in range(nb)] for _ in range(nb)], dtype=dt or "int64")
+                b = physt.h2(None, None, [e, e])
+                h = Histogram2D([x.copy() for x in b.binnings], frequencies=f2, missed=value, **kw)
+                got = h.missed
+    except Exception as ex:
+        err = ex
+    if err is None:
+        with attach.quiet():
+            if float(got) != float(value):
+                rec.fail(monitor="C13.rules", op=f"missed/{how}", symptom="a weight outside the bins stated for an integer histogram is reported as another value (truncated)", diff=["missed"],
+                         detail={"how": how, "which": which, "given": value, "reported": float(got), "dtype_requested": dt, "dtype": str(h.dtype)})
+            for p_ in snap.dtype_problems(h):
+                rec.fail(monitor="C13.rules", op=f"missed/{how}", symptom="reported dtype differs from the element type of the arrays", diff=["dtype"], detail={"problem": p_, "how": how})
+    elif float(value) == int(value):
+        rec.fail(monitor="C13.rules", op=f"missed/{how}", symptom=f"an integral weight outside the bins was refused: {type(err).__name__}", diff=["raised"], detail={"how": how, "given": value, "error": str(err)[:120]})
+    rec.case(["stated_missed", how, which, value, dt, e.tolist()], float(value) != int(value), cls=f"stated_missed/{how}/{dt}/{'refused' if err is not None else 'accepted'}")
+
+
 def attach_monitors(ctx):
     ctx.world = World(passive=False)
     attach_world(ctx.world)
@@ -678,6 +785,8 @@ def run(ctx):
     attach_monitors(ctx)
     ctx.run_cases(ctx.scale(500, 4000), one_history, salt="dtype")
     ctx.run_cases(ctx.scale(120, 800), narrow_count_case, salt="narrow")
+    ctx.run_cases(ctx.scale(150, 800), special_facade_case, salt="special")
+    ctx.run_cases(ctx.scale(150, 800), stated_missed_case, salt="stated_missed")
     # the chunk-addition workload of C05 mixes int64 / float64 chunks on adaptive grids: its dtype records belong here
     from . import C05
 
